@@ -100,8 +100,8 @@ PROPS["C16"] = {
 PROPS["C04"] = {
     "units": ["h1_dispatcher_io", "h1_payload"],
     "kani": [],
-    "technique": "Verus contracts with ghost logs on the extracted real InnerDispatcher::{poll_flush, read_available, can_read} (socket accepted-bytes log, waker registration tokens) and on the body channel (h1_payload)",
-    "level_text": "deductive proof, for every partial-write pattern (all n accepted per poll_write, Pending at any point), that poll_flush conserves bytes: socket-accepted ++ write_buf is invariant, the socket only ever receives a prefix of the buffered bytes in order, Ready(Ok) means everything was written and the buffer is empty, Pending means the socket registered the waker and exactly the written prefix was advanced; that read_available only appends, stops at the buffer cap, and whenever it reports `no more for now` a wake-up source exists (socket registered, self-wake, or the paused body consumer's io waker); body-channel wake-ups are C07's contracts",
+    "technique": "Verus contracts with ghost logs on the extracted real InnerDispatcher::{poll_flush, read_available, can_read, poll_linger} (socket accepted-bytes log, waker registration tokens) and on the body channel (h1_payload)",
+    "level_text": "deductive proof, for every partial-write pattern (all n accepted per poll_write, Pending at any point), that poll_flush conserves bytes: socket-accepted ++ write_buf is invariant, the socket only ever receives a prefix of the buffered bytes in order, Ready(Ok) means everything was written and the buffer is empty, Pending means the socket registered the waker and exactly the written prefix was advanced; that read_available only appends, stops at the buffer cap, and whenever it reports `no more for now` a wake-up source exists (socket registered, self-wake, or the paused body consumer's io waker); that poll_linger first flushes (conserving the response bytes), returns Pending only with a wake-up source, and never leaves newly read input in the buffer; body-channel wake-ups are C07's contracts",
     "level_note": "assumes the AsyncRead/AsyncWrite contracts stated in shims/asyncio.rs (Pending registers the waker; a write accepts a prefix; not-ready is Pending not WouldBlock), Waker token, BytesMut shim; InnerDispatcher reduced to the projected fields; pin projection erased (R3/R4)",
     "not_decided": ["that Dispatcher::poll as a whole never returns Pending without a registration, and termination once the peer is done (liveness over the whole state machine): no contract within reach", "timer wake-ups (h1/timer.rs)"],
     "assumptions": ["poll_flush/read_available precondition: the io object is present (it is only taken on upgrade)"],
@@ -120,9 +120,9 @@ PROPS["C03"] = {
     "units": ["h1_dispatcher_io", "h1_codec", "h1_poll_request", "h1_poll_response"],
     "kani": [],
     "technique": "Verus contracts on the extracted real decision functions of the reuse discipline: should_close_for_unread_payload, enter_linger, can_read, read_available's FINISHED handling, Codec's connection-type bookkeeping; contracts on send_response / send_error_response / poll_response (Connection: close announced and linger/shutdown entered when the request body is unread and undrainable, keep-alive decision)",
-    "level_text": "deductive proof, for all states, of the functions that implement close-means-close: the unread-payload close decision equals `body unfinished and not (dropped and drainable)`; enter_linger clears KEEP_ALIVE and sets LINGER|FINISHED touching nothing else; no read is attempted after READ_DISCONNECT; while an unread, dropped request body is being drained a successful read does not clear FINISHED (so the close decision survives the drain) and no other flag is touched; the codec records Close when keep-alive is disabled and a response's Close/Upgrade overrides the recorded type; body bytes are never handed to the head parser while a payload decoder is installed; for send_response / send_error_response: when the request body is unread and undrainable (or the connection is draining) and the response is not an upgrade, the head is encoded with connection type Close, and if the response has no body the flags are FINISHED plus LINGER without KEEP_ALIVE (disconnect deadline configured) or SHUTDOWN; for poll_response: at the end of a response body and of an error-response body alike, nothing pipelined and an unread undrainable request body put the connection into the same closing state; KEEP_ALIVE is set on an idle return exactly when the request body is finished and the codec still says keep-alive; draining drops the queue, clears KEEP_ALIVE and shuts down",
+    "level_text": "deductive proof, for all states, of the functions that implement close-means-close: the unread-payload close decision equals `body unfinished and not (dropped and drainable)`; enter_linger clears KEEP_ALIVE and sets LINGER|FINISHED touching nothing else; no read is attempted after READ_DISCONNECT; while an unread, dropped request body is being drained a successful read does not clear FINISHED (so the close decision survives the drain) and no other flag is touched; the codec records Close when keep-alive is disabled and a response's Close/Upgrade overrides the recorded type; body bytes are never handed to the head parser while a payload decoder is installed; for send_response / send_error_response: when the request body is unread and undrainable (or the connection is draining) and the response is not an upgrade, the head is encoded with connection type Close, and if the response has no body the flags are FINISHED plus LINGER without KEEP_ALIVE (disconnect deadline configured) or SHUTDOWN; for poll_response: at the end of a response body and of an error-response body alike, nothing pipelined and an unread undrainable request body put the connection into the same closing state; KEEP_ALIVE is set on an idle return exactly when the request body is finished and the codec still says keep-alive; draining drops the queue, clears KEEP_ALIVE and shuts down; for poll_linger (the state after an early response with an unread body): everything read from the peer is discarded, never left for the parser, the codec and the queue are not touched, and the linger state ends only in SHUTDOWN (peer closed / no disconnect deadline configured)",
     "level_note": "function-level proofs plus the invariants of poll_response; the connection-level statement is decided only up to the flags (that Dispatcher::poll acts on LINGER/SHUTDOWN/FINISHED is not under contract); one obligation (no request is dispatched after a close-announcing response) fails on the unchanged tree and is recorded as a known finding",
-    "not_decided": ["Dispatcher::poll acting on the flags (LINGER -> poll_linger, SHUTDOWN -> poll_shutdown) and poll_linger deadline handling (time)"],
+    "not_decided": ["Dispatcher::poll acting on the flags (LINGER -> poll_linger, SHUTDOWN -> poll_shutdown) and the linger deadline (shutdown timer: time)"],
     "assumptions": [],
 }
 
@@ -156,12 +156,12 @@ PROPS["C11"] = {
 }
 
 PROPS["C09"] = {
-    "units": ["web_resource_service", "router_url"],
+    "units": ["web_resource_service", "router_recognize", "router_url"],
     "kani": [],
     "technique": "Verus contracts: loop invariant `every earlier route refused` on the extracted real ResourceService::call (ghost identity on the returned future); data-structure invariant `decoded path is the one computed from this Url's own uri` on the extracted real actix_router::Url",
-    "level_text": "deductive proof, for every route list and request, that a matched resource dispatches to the FIRST registered route whose guards accept the request and otherwise to its default service, passing the request through unchanged; and that Url::new/update/update_with_quoter always recompute the percent-decoded path from the uri they are given (no stale path survives reuse of a pooled request)",
-    "level_note": "assumes guards do not mutate the request (RouteService::check contract) and the service/future shims; Router::recognize_fn / AppRouting::call / ScopeService::call pass FnMut closures that capture &mut (rejected by Verus) and call into the regex crate, Kani fails on them (ICE / OOM): the app- and scope-level first-match search is NOT decided",
-    "not_decided": ["Router::recognize_fn first-match loop over (ResourceDef, service, guards)", "AppRouting::call / ScopeService::call: nearest enclosing default, depth-first composition over nested scopes", "exactly the path parameters of the matched patterns (ResourceDef::capture_match_info_fn + Path::add)", "percent-decoding never moves a segment boundary (Quoter keeps %2F: see C10 bounded check)", "app_data resolves to the innermost registration", "builder-time registration (Scope::configure, App::service ...)"],
+    "level_text": "deductive proof, for every route list and request, that a matched resource dispatches to the FIRST registered route whose guards accept the request and otherwise to its default service, passing the request through unchanged; that Router::recognize_fn (the loop AppRouting and ScopeService search with) returns the value and id of the FIRST registered route whose pattern matches the remaining path and whose check (guards) accepts, records that route's match info in the resource and only that, and leaves the resource untouched when nothing matches; and that Url::new/update/update_with_quoter always recompute the percent-decoded path from the uri they are given (no stale path survives reuse of a pooled request)",
+    "level_note": "assumes guards do not mutate the request (RouteService::check contract) and the service/future shims; in Router::recognize_fn the caller's FnMut check is modelled as a pure predicate of (resource, route context) (R26b) and ResourceDef::capture_match_info_fn is an assumed contract (regex based; Kani ICEs on ResourceDef); AppRouting::call / ScopeService::call (how the closure is built from the guards, the default fallback) are not under contract",
+    "not_decided": ["AppRouting::call / ScopeService::call: nearest enclosing default, depth-first composition over nested scopes", "exactly the path parameters of the matched patterns (ResourceDef::capture_match_info_fn + Path::add)", "percent-decoding never moves a segment boundary (Quoter keeps %2F: see C10 bounded check)", "app_data resolves to the innermost registration", "builder-time registration (Scope::configure, App::service ...)"],
     "assumptions": [],
 }
 
